@@ -28,6 +28,7 @@ NOISE_HEADERS = {"x-schemathesis-testcaseid", "host"}
 _LOCK = threading.Lock()
 _CURRENT: dict = {"entropy": [], "seed_calls": [], "boundary": [], "phase": None}
 _INSTALLED = False
+_THREAD_REC: dict = {}
 
 
 class CountingRandom(random.Random):
@@ -68,14 +69,36 @@ def install():
             "thread": threading.current_thread().name,
             "phase": _CURRENT["phase"],
             "consulted": 0,
+            "pool": [],
         }
         with _LOCK:
             _CURRENT["entropy"].append(rec)
+            _THREAD_REC[rec["thread"]] = rec
         counting = CountingRandom(0, rec)
         counting.setstate(rnd.getstate())
         return counting
 
     hc.get_random_for_wrapped_test = get_random_for_wrapped_test
+
+    # Hypothesis keeps a process-global pool of constants collected from the *local* (not site-packages) modules present in
+    # sys.modules, refreshed once per generated input.  Record, per test, the sizes of the pool it saw.
+    import hypothesis.internal.conjecture.providers as hp
+
+    original_constants = hp._get_local_constants
+
+    def _get_local_constants():
+        out = original_constants()
+        rec = _THREAD_REC.get(threading.current_thread().name)
+        if rec is not None:
+            try:
+                size = len(out)
+            except TypeError:
+                size = -1
+            if not rec["pool"] or rec["pool"][-1] != size:
+                rec["pool"].append(size)
+        return out
+
+    hp._get_local_constants = _get_local_constants
 
     original_seed = hypothesis.seed
 
@@ -150,7 +173,18 @@ def run_spec(spec: dict) -> dict:
     from harness.loopback import Recorder
 
     install()
+    if spec.get("preimport"):
+        # import every schemathesis module up front: the constants pool is then complete before the first draw
+        import importlib
+        import pkgutil
+
+        for mod in pkgutil.walk_packages(schemathesis.__path__, "schemathesis."):
+            try:
+                importlib.import_module(mod.name)
+            except Exception:  # noqa: BLE001
+                pass
     with _LOCK:
+        _THREAD_REC.clear()
         _CURRENT["entropy"] = []
         _CURRENT["seed_calls"] = []
         _CURRENT["boundary"] = []
